@@ -322,7 +322,8 @@ AUTO_THOROUGH = AUTO_QUICK + [
     [["set"], [P(0, 1), P(0, 2)], [P(1, 3), D(1)]],
     [["set", "try"], [P(0, 1), D(0)]],
     [["set"], ["set"], [P(0, 1)], ],
-    [["set", "set"], [P(0, 1), P(0, 2)], [P(1, 3), P(1, 3)]],
+    # not registered (kept for reference): no verdict within 30 min of z3 under load
+    # [["set", "set"], [P(0, 1), P(0, 2)], [P(1, 3), P(1, 3)]],
     [["set"], [P(0, 1), D(0)], ["try", "try"]],
 ]
 MANUAL_QUICK = [
@@ -340,7 +341,8 @@ MANUAL_THOROUGH = MANUAL_QUICK + [
     [["set", "set"], ["reset", P(1, 2)], [P(0, 1)]],
     [["set", "reset"], [P(0, 1)], [P(1, 2)]],
     [["set"], ["reset", "try"], [P(0, 1)]],
-    [["set", "reset", "set"], [P(0, 1)], [P(1, 2), D(1)]],
+    # not registered (kept for reference): no verdict within 30 min of z3 under load
+    # [["set", "reset", "set"], [P(0, 1)], [P(1, 2), D(1)]],
     [["set"], ["try"], [P(0, 1), P(0, 2)]],
 ]
 
